@@ -10,7 +10,9 @@ Oracle on the final state of every interleaving:
   (1) the independent recomputations batchfamily.check_c01 / check_c06 / check_c41_state hold,
   (2) the canonical final store equals the final store of one of the serial orders of the same operations,
   (3) no operation ends with an exception class that none of the serial orders produces.
-Signatures are prefixed 'interleaving:'.
+Signatures are prefixed 'interleaving:'.  `extra_phase(tier, procs)` is the additional phase of C01, C06 and C41.
+Plain reads see the latest committed version (READ COMMITTED-like) in the gating runs; REPEATABLE READ snapshot runs
+(thorough tier) are reported as informational observations only - see ASSUME.
 """
 from __future__ import annotations
 
@@ -129,25 +131,27 @@ PAIRS = [
      [BUNCH_G2, ('cancel', 1)]),
 ]
 
+# triples (thorough tier): (name, [start states], operations, deviation bound | None = every schedule)
 TRIPLES = [
     ('complete_A||complete_B||commit_u2', ['nested_running+u2_in_groups'],
-     [('complete', 1, 'a1', 'i1', 'Success'), ('complete', 2, 'a2', 'i2', 'Success'), ('commit', 2)]),
+     [('complete', 1, 'a1', 'i1', 'Success'), ('complete', 2, 'a2', 'i2', 'Success'), ('commit', 2)], 5),
     ('cancel_g1||complete(job in g2)||commit_u2', ['nested_running+u2_in_groups'],
-     [('cancel', 1), ('complete', 2, 'a2', 'i2', 'Success'), ('commit', 2)]),
+     [('cancel', 1), ('complete', 2, 'a2', 'i2', 'Success'), ('commit', 2)], 5),
     ('complete_last||commit_u2||commit_u2', ['single+u2_child'],
-     [('complete', 1, 'a1', 'i1', 'Success'), ('commit', 2), ('commit', 2)]),
+     [('complete', 1, 'a1', 'i1', 'Success'), ('commit', 2), ('commit', 2)], None),
 ]
 
-QUICK = [
+QUICK = [   # ~780 executions, the longest item ~310 (cancel || complete, ~630 each, is left to the thorough tier)
     ('complete_last_job||commit_u2', 'single+u2_indep'),
-    ('complete_last_job||commit_u2', 'single+u2_child'),
-    ('complete_A||complete_B(last two jobs of the batch)', 'pair_running'),
-    ('cancel_g1||complete(job in g2 under g1)', 'nested_running'),
     ('cancel_g1||commit_u2(jobs in g1, g2)', 'nested_ready+u2_in_groups'),
     ('schedule||cancel_g1', 'nested_ready'),
     ('commit_u2||commit_u2(retry)', 'single+u2_child'),
     ('complete_A||complete_A(duplicate report)', 'pair_running'),
 ]
+
+
+class StartStateError(RuntimeError):
+    """A start-state script could not be played on this tree (reported as an item error, never as a verdict)."""
 
 
 def world():
@@ -172,7 +176,7 @@ def start_state(name):
         for label in start_scripts()[name]:
             obs = ops.apply(w, label)
             if obs.get('http', 200) >= 400 or obs.get('callerror') is not None or obs.get('rc', 0) not in (0, None):
-                raise RuntimeError(f'start state {name}: {label} -> {obs}')
+                raise StartStateError(f'start state {name}: {label} -> {obs}')
         snap = _STARTS[name] = w.snapshot()
     return snap
 
@@ -302,7 +306,8 @@ class Runner:
         self.prune = prune
         self.w = world()
         self.snap = start_state(start)
-        self.found: Dict[str, Tuple[str, tuple]] = {}   # signature -> (message, choices) smallest first
+        self.found: Dict[str, tuple] = {}   # signature -> (message, choices, serial order | None) smallest first
+        self.sequential_sigs = set()        # oracle signatures already violated without any interleaving
         self.stats = {'executions': 0, 'lock_waits': 0, 'deadlocks': 0, 'yields': 0, 'stmt_retries': 0, 'max_workers': 0,
                       'executions_with_lock_wait': 0, 'executions_with_deadlock': 0, 'preimage_rows_served': 0,
                       'dirty_column_waits': 0, 'locks_s': 0, 'locks_x': 0, 'beyond_deadlock_bound': 0}
@@ -310,6 +315,34 @@ class Runner:
         self.last_trace = None
         self.last_dump = None
         self.first_trace = None
+        self._check_start_state()
+
+    def _state_violations(self):
+        from vf import batchfamily as bf
+
+        v = bf.View(self.w)
+        sv = []
+        if 'C01' in self.monitors:
+            sv += bf.check_c01(self.w, v)
+        if 'C06' in self.monitors:
+            sv += bf.check_c06(self.w, v)
+        if 'C41' in self.monitors:
+            sv += bf.check_c41_state(self.w, v)
+        return sv
+
+    def _sequential(self, sig, msg, order):
+        """A violation that needs no interleaving (start state / serial order): a sequential defect of the code under test,
+        reported under the oracle's own signature."""
+        self.sequential_sigs.add(sig)
+        old = self.found.get(sig)
+        if old is None or old[2] is None or len(order) < len(old[2]):
+            self.found[sig] = (msg, (), tuple(order))
+
+    def _check_start_state(self):
+        self.w.restore(self.snap)
+        for sig, msg in self._state_violations():
+            self._sequential(sig, f'start state {self.start} (built by the sequential script '
+                                  f'{str(start_scripts()[self.start])[:600]}): {msg}', ())
 
     # -- one execution -----------------------------------------------------------------------------------------
     def execute(self, chooser, order=None, trace=False):
@@ -340,25 +373,26 @@ class Runner:
                 del _lx.GAPS[:]
                 raise RuntimeError(f'minisql harness gap during {self.name}: {gaps[:3]}')
         self.stats['max_workers'] = max(self.stats['max_workers'], tm.pool.created)
-        v = bf.View(w)
-        sv = []
-        if 'C01' in self.monitors:
-            sv += bf.check_c01(w, v)
-        if 'C06' in self.monitors:
-            sv += bf.check_c06(w, v)
-        if 'C41' in self.monitors:
-            sv += bf.check_c41_state(w, v)
-        return canon(w), tuple(res), tm.stats, tm.trace, sv, errs
+        return canon(w), tuple(res), tm.stats, tm.trace, self._state_violations(), errs
 
     def serial_refs(self):
         if not self.serial:
             import itertools
 
             for order in itertools.permutations(range(len(self.labels))):
-                dump, res, _, _, sv, _ = self.execute(vloop.Chooser(()), order=order)
-                if sv:
-                    raise RuntimeError(f'{self.name}/{self.start}: serial order {order} already violates a state recomputation: {sv[0]}')
-                self.serial[''.join(map(str, order))] = (dump, res)
+                dump, res, _, _, sv, errs = self.execute(vloop.Chooser(()), order=order)
+                o = ''.join(map(str, order))
+                where = (f'{self.name} from {self.start}, operations ' + ' then '.join(str(self.labels[i]) for i in order) +
+                         ' run ONE AFTER THE OTHER (no interleaving)')
+                for sig, msg in sv:
+                    self._sequential(sig, f'{where}: {msg}', order)
+                for i, r in enumerate(res):
+                    if r[0] == 'exception':
+                        self._sequential(f'unexpected-exception:{r[1]}', f'{where}: operation {self.labels[i]} ended with {r}', order)
+                for e in errs:
+                    ex = e.get('exception')
+                    self._sequential(f'loop-error:{type(ex).__name__ if ex else "?"}', f'{where}: {e.get("message")}: {ex!r}', order)
+                self.serial[o] = (dump, res)
         return self.serial
 
     def run_one(self, chooser):
@@ -377,17 +411,22 @@ class Runner:
         viols = []
         where = f'{self.name} from {self.start}' + (' [snapshot reads]' if self.snapshot_reads else '')
         for sig, msg in sv:
-            viols.append((f'interleaving:{sig}', f'{where}: {msg}'))
+            if sig not in self.sequential_sigs:   # else: already reported as a sequential defect under its own signature
+                viols.append((f'interleaving:{sig}', f'{where}: {msg}'))
         matches = [o for o, (d, _) in serial.items() if d == dump]
         if not matches:
             diffs = []
             for o, (d, _) in serial.items():
                 diffs.append(f'vs serial {o}: ' + '; '.join(_diff(d, dump)[:4]))
             viols.append(('interleaving:not-serializable', f'{where}: final store equals no serial order. ' + ' | '.join(diffs)))
-        allowed = {r[:2] for _, rs in serial.values() for r in rs if r[0] != 'ok'}
+        allowed = {r[:2] for _, rs in serial.values() for r in rs if r[0] not in ('ok', 'exception')}
         for i, r in enumerate(res):
-            if r[0] == 'exception' or (r[0] != 'ok' and r[:2] not in allowed):
-                viols.append((f'interleaving:unexpected-exception:{r[1]}', f'{where}: operation {self.labels[i]} ended with {r}'))
+            if r[0] == 'exception':
+                if f'unexpected-exception:{r[1]}' not in self.sequential_sigs:
+                    viols.append((f'interleaving:unexpected-exception:{r[1]}', f'{where}: operation {self.labels[i]} ended with {r}'))
+            elif r[0] != 'ok' and r[:2] not in allowed:
+                viols.append((f'interleaving:unexpected-refusal:{r[1]}', f'{where}: operation {self.labels[i]} ended with {r}, '
+                              f'which no serial order produces'))
         for e in errs:
             ex = e.get('exception')
             viols.append((f'interleaving:loop-error:{type(ex).__name__ if ex else "?"}', f'{where}: {e.get("message")}: {ex!r}'))
@@ -396,8 +435,8 @@ class Runner:
         for sig, msg in viols:
             msg = msg + ' || schedule: ' + render_trace(trace)
             old = self.found.get(sig)
-            if old is None or len(choices) < len(old[1]):
-                self.found[sig] = (msg, choices)
+            if old is None or (old[2] is None and len(choices) < len(old[1])):
+                self.found[sig] = (msg, choices, None)
             if first is None:
                 first = (msg, sig)
         outcome = (_h(sorted(dump.items())), res, tuple(matches))
@@ -439,10 +478,36 @@ def render_trace(trace, limit=80):
 def _factory(name, start, labels, snapshot_reads, monitors):
     r = Runner(name, start, labels, snapshot_reads, monitors)
     _factory.last = r
+    r.serial_refs()
     return r.run_one
 
 
+def _violation_list(r: 'Runner'):
+    out = []
+    for sig, (msg, ch, order) in sorted(r.found.items()):
+        rp = {'txpair': r.name, 'start': r.start, 'ops': [list(l) for l in r.labels], 'snapshot_reads': r.snapshot_reads, 'choices': list(ch)}
+        if order is not None:
+            rp['serial_order'] = list(order)
+        out.append({'signature': sig, 'message': msg, 'replay': rp})
+    return out
+
+
 def explore_item(item):
+    """Never raises: a failure inside one item is returned as {'error': ...} next to whatever the item had found."""
+    import traceback
+
+    name, start, labels, snapshot_reads = item[:4]
+    _factory.last = None
+    try:
+        return _explore_item(item)
+    except Exception as e:  # noqa: BLE001
+        r = getattr(_factory, 'last', None)
+        return {'pair': name, 'start': start, 'snapshot_reads': snapshot_reads, 'ops': [list(map(str, l)) for l in labels],
+                'error': f'{type(e).__name__}: {e}'[:600], 'traceback': traceback.format_exc()[-1500:],
+                'violations': _violation_list(r) if r is not None else []}
+
+
+def _explore_item(item):
     name, start, labels, snapshot_reads, monitors, bound, cap = item
     t0 = time.time()
     res = vloop.explore(_factory, (name, start, labels, snapshot_reads, monitors), bound=bound, cap=cap, procs=1, determinism_checks=3)
@@ -456,10 +521,7 @@ def explore_item(item):
         'outcomes_by_serial_match': _by_match(res.outcomes),
         'serial_orders_distinct': len({_h(sorted(d.items())) for d, _ in r.serial.values()}),
         'stats': dict(r.stats), 'wall': round(time.time() - t0, 2), 'worker_threads_alive': txmc.live_worker_threads(),
-        'violations': [{'signature': sig, 'message': msg,
-                        'replay': {'txpair': name, 'start': start, 'ops': [list(l) for l in labels], 'snapshot_reads': snapshot_reads,
-                                   'choices': list(ch)}}
-                       for sig, (msg, ch) in sorted(r.found.items())],
+        'violations': _violation_list(r),
         'sample_schedule': r.first_trace,
     }
     return out
@@ -486,37 +548,49 @@ def items_for(tier, monitors):
         for n, s in QUICK:
             items.append((n, s, cat[n][1], False, monitors, None, 4000))
         return items
+    for n, starts, labels, bound in TRIPLES:   # the long items first (better balance over the worker processes)
+        for s in starts:
+            items.append((n, s, labels, False, monitors, bound, 40000))
     for n, starts, labels in PAIRS:
         for s in starts:
             items.append((n, s, labels, False, monitors, None, 60000))
-    for n, starts, labels in TRIPLES:
-        for s in starts:
-            items.append((n, s, labels, False, monitors, TRIPLE_BOUND, 30000))
     for n, starts, labels in PAIRS:
         for s in starts[:1]:
             items.append((n, s, labels, True, monitors, None, 60000))
     return items
 
 
-TRIPLE_BOUND = 4
-
-
 ASSUME = [
     'statement-level interleavings: InnoDB-like RECORD locks only (S/X per primary key); gap / next-key / insert-intention locks '
-    'and phantom protection are NOT modelled (all operations of a pair use token shard 0, so no interleaving depends on a phantom '
-    'shard row); a lock request is granted when compatible with the locks granted to other sessions (no FIFO fairness among waiters)',
+    'and phantom protection are NOT modelled (all operations of a pair use token shard 0 and every counter row they touch exists in '
+    'the start state, so no explored interleaving depends on a phantom row); a lock request is granted when compatible with the '
+    'locks granted to other sessions (no FIFO fairness among waiters)',
     'locking reads and DML lock the rows of their final (ON/WHERE-filtered) bindings (InnoDB locks every index record its scan touches); '
-    'they read the latest row versions and wait when a row written by another open transaction survives the search condition or a '
-    'column that transaction changed was read while filtering; rows deleted by another open transaction are invisible to them',
-    'plain SELECTs take no locks and see other sessions\' writes only after commit: READ COMMITTED-like (latest committed version per '
-    'statement) in every tier, and additionally REPEATABLE READ snapshots (committed state at the first plain read of the transaction, '
-    'own writes visible) in the thorough tier; statements inside stored functions / triggers are plain statements of their own',
+    'UPDATE takes X on the rows it updates and S on the rows of the other joined tables; INSERT..SELECT and subqueries / derived tables '
+    'inside DML take S on their source rows unless they carry their own clause; a duplicate-key check takes S (X with ON DUPLICATE KEY '
+    'UPDATE) on the existing row; they read the latest row versions and wait when a row written by another open transaction survives '
+    'the search condition or a column that transaction changed was read while filtering; rows deleted by another open transaction are '
+    'invisible to them; a locking clause does not reach into nested query blocks, stored functions or triggers (a clause on a '
+    'FROM-less SELECT locks nothing)',
+    'plain SELECTs (also those inside stored functions and triggers) take no locks and never see another session\'s uncommitted '
+    'writes (pre-images are served from that session\'s undo log); the gating exploration gives them the latest COMMITTED version at '
+    'every statement (READ COMMITTED-like approximation of REPEATABLE READ snapshots; for the procedures explored the first plain read '
+    'of a transaction is the only one whose freshness matters, except the cancellation test inside the jobs_after_update trigger). The '
+    'thorough tier additionally explores true REPEATABLE READ snapshots (committed state at the first plain read of the transaction, '
+    'own writes visible) and reports what it finds as INFORMATIONAL only: whether InnoDB serves the reads of a stored function called '
+    'from a trigger of an UPDATE from the snapshot or as S-locking reads of the latest version cannot be settled offline',
     'a lock wait undoes the statement, parks the session until the holders end their transactions and re-executes the statement on '
     'the then-current data; the requester that closes a wait-for cycle is the deadlock victim (InnoDB picks the cheaper transaction): '
-    'its transaction is rolled back, error 1213 is raised and gear.database.retry_transient_mysql_errors retries the operation',
+    'its transaction is rolled back, error 1213 is raised and gear.database.retry_transient_mysql_errors retries the operation; '
+    'executions with more than 2 deadlock victims are completed in FIFO order without further branching (the retry counter and the '
+    'back-off clock are unbounded state)',
     'yield points: before every statement of a stored-procedure body down to call depth 2 and before every top-level statement that '
     'reads or writes tables or ends a transaction holding locks; purely local statements (DECLARE / SET / IF without subquery) are '
-    'fused with the next one; statements of procedures called deeper, of functions and of triggers run atomically with their caller',
+    'fused with the next one; statements of procedures called deeper, of functions and of triggers run atomically with their caller; '
+    'python-level callbacks that are not paused at a database call run at once in FIFO order (they touch no table and no lock); a '
+    'multi-row statement is one atomic step (InnoDB can interleave two statements row by row)',
+    'serializability differential compares canonical stores (volatile columns dropped; rows of job_group_inst_coll_cancellable_resources '
+    'below a cancelled group left out, exactly as the C01 recomputation does: they are stale by design and never read again)',
 ]
 
 
@@ -530,13 +604,18 @@ def extra_phase(tier, procs, monitors=('C01', 'C06', 'C41')):
     items = par.rotate(items_for(tier, tuple(monitors)), int(os.environ.get('VERIF_SEED', '0') or 0))
     results = par.pmap(explore_item, items, procs=max(1, min(procs, len(items))), chunksize=1)
     results.sort(key=lambda r: (r['snapshot_reads'], len(r['ops']), r['pair'], r['start']))
+    errors = [{'pair': r['pair'], 'start': r['start'], 'error': r['error'], 'traceback': r['traceback']}
+              for r in results if 'error' in r and not r['snapshot_reads']]
+    info_errors = [f"{r['pair']}/{r['start']}: {r['error']}" for r in results if 'error' in r and r['snapshot_reads']]
+    failed = [r for r in results if 'error' in r]
+    results = [r for r in results if 'error' not in r]
     # Items explored with REPEATABLE READ snapshot reads are informational: whether InnoDB serves the reads of a stored
     # function called from a trigger of an UPDATE from the transaction's snapshot or as S-locking reads of the latest
     # version cannot be settled offline, and that alone decides them (see ASSUME).  They never change the exit code.
     info = [r for r in results if r['snapshot_reads']]
     results = [r for r in results if not r['snapshot_reads']]
     viols: Dict[str, dict] = {}
-    for r in results:
+    for r in results + [f for f in failed if not f['snapshot_reads']]:
         for v in r['violations']:
             old = viols.get(v['signature'])
             if old is None or len(v['replay']['choices']) < len(old['replay']['choices']):
@@ -557,10 +636,11 @@ def extra_phase(tier, procs, monitors=('C01', 'C06', 'C41')):
         'preimage_rows_served_to_plain_reads': tot('preimage_rows_served'), 'dirty_column_waits': tot('dirty_column_waits'),
         'exhaustive': not any(r['capped'] for r in results),
         'capped_items': [f"{r['pair']}/{r['start']}" for r in results if r['capped']],
-        'bounds': (f'pairs: every schedule (state-hash pruned DFS); triples: <= {TRIPLE_BOUND} deviations from round-robin; '
+        'bounds': ('pairs: every schedule (state-hash pruned DFS); triples: ' +
+                   ', '.join(f'{n}: ' + ('every schedule' if b is None else f'<= {b} deviations from first-ready order') for n, _, _, b in TRIPLES) + '; '
                    if tier != 'quick' else 'quick subset of pairs: every schedule (state-hash pruned DFS); ') +
                   'executions with more than 2 deadlock victims are finished in FIFO order without further branching',
-        'max_worker_threads': max(r['stats']['max_workers'] for r in results),
+        'max_worker_threads': max([r['stats']['max_workers'] for r in results] or [0]),
         'wall': round(time.time() - t0, 1),
         'executions_finished_unbranched_beyond_deadlock_bound': tot('beyond_deadlock_bound'),
         'per_item': [{k: r[k] for k in ('pair', 'start', 'executions', 'distinct_outcomes', 'outcomes_by_serial_match',
@@ -575,17 +655,34 @@ def extra_phase(tier, procs, monitors=('C01', 'C06', 'C41')):
             'first': next(({'pair': r['pair'], 'start': r['start'], 'signature': v['signature'], 'message': v['message'][:1500],
                             'replay': v['replay']} for r in info for v in r['violations']), None),
         }
-    if cov['interleavings_explored'] < 20 or cov['lock_waits'] == 0:
-        raise RuntimeError(f'statement-interleaving phase explored nothing interesting: {cov}')
+        if info_errors:
+            cov['repeatable_read_snapshot_observations (informational, not gating)']['item_errors'] = info_errors
+    if not errors and (cov['interleavings_explored'] < 20 or cov['lock_waits'] == 0):
+        errors.append({'pair': '*', 'start': '*', 'error': 'vacuous: the phase explored nothing interesting '
+                       f"({cov['interleavings_explored']} interleavings, {cov['lock_waits']} lock waits)", 'traceback': ''})
+    if errors:
+        cov['errors'] = errors   # harness failures inside the phase; merge_into decides what they mean for the verdict
     return cov, sorted(viols.values(), key=lambda v: v['signature'])
 
 
 def merge_into(result, tier, procs, monitors):
-    """Helper for the check modules: run the phase and merge it into a check() result dict."""
-    cov, viols = extra_phase(tier, procs, monitors)
+    """Helper for the check modules: run the phase and merge it into a check() result dict.  A failure inside the phase
+    never hides a violation (of the main search or of other items of the phase): violations are returned next to the
+    recorded errors; only when NOTHING found a violation does a phase failure become a harness error (no verdict)."""
+    import traceback
+
+    try:
+        cov, viols = extra_phase(tier, procs, monitors)
+    except Exception as e:  # noqa: BLE001
+        cov, viols = {'errors': [{'pair': '*', 'start': '*', 'error': f'{type(e).__name__}: {e}'[:600],
+                                  'traceback': traceback.format_exc()[-1500:]}]}, []
     result['coverage']['statement_interleavings'] = cov
     result['violations'] = list(result['violations']) + viols
     result['assumptions'] = list(result['assumptions']) + ASSUME
+    if cov.get('errors') and not result['violations']:
+        e = cov['errors'][0]
+        raise RuntimeError(f"statement-interleaving phase failed ({len(cov['errors'])} item(s)) and no violation was found elsewhere: "
+                           f"{e['pair']}/{e['start']}: {e['error']}\n{e['traceback']}")
     return result
 
 
@@ -595,6 +692,13 @@ def replay(obj):
 
     boot.install()
     r = Runner(obj['txpair'], obj['start'], [tuple(l) for l in obj['ops']], obj.get('snapshot_reads', False))
+    if 'serial_order' in obj:   # a sequential defect: the start state itself ([]) or the operations one after the other
+        if obj['serial_order']:
+            r.serial_refs()
+        v = sorted(r.found.items())
+        return (not v), (v[0][1][0] if v else 'no violation')
+    r.found.clear()
+    r.sequential_sigs.clear()
     ch = vloop.Chooser(tuple(obj['choices']))
     try:
         outcome, msg, sig = r.run_one(ch)
